@@ -108,6 +108,10 @@ class C06(e1.E1Check):
     def l3_matches(self, exp, got, label):
         return refops.matches_sorted(exp, got)
 
+    def l3_signature(self, T, tvs, label):
+        return {"has_option": refops._has_kind(T, ("opt",)), "strings": refops._has_kind(T, ("str", "bytes")),
+                "empty_array": len(tvs) == 0}
+
     def signature(self, T, tvs, d, names, opname, args, failure):
         return {"ascending": bool(args[1]), "stable": bool(args[2]), "has_option": refops._has_kind(T, ("opt",)),
                 "strings": refops._has_kind(T, ("str", "bytes")), "leaf": refops._leaf_kind(T),
